@@ -1,12 +1,13 @@
 #!/bin/bash
-# Builds every check binary once so later runs hit a warm GOCACHE. Offline: only files on disk.
+# Builds every claimed check binary once so later runs hit a warm GOCACHE. Offline: only files on disk.
 set -u
 cd "$(dirname "$0")/harness"
 export GOFLAGS=-mod=mod GOPROXY=off GOTOOLCHAIN=auto
 unset GOSUMDB
 mkdir -p ../.build ../evidence ../replay
 rc=0
-for d in c[0-9][0-9]; do
+for id in $(cat ../claimed.txt); do
+  d=$(echo "$id" | tr 'A-Z' 'a-z')
   [ -d "$d" ] || continue
   go test -c -tags verif -o ../.build/$d.test ./$d || rc=1
 done
